@@ -3,7 +3,7 @@
 Entry `unreal2 <port> <gather> <retries> <script>`; `<gather>` = two letters (s skip / t try / e enforce): the
 mutators-and-rules toggle, then the players toggle (server info is always required)."""
 
-FAMILY = dict(
+FAMILY = dict(send_units=3, 
     name="unreal2", nargs=3, gen="unreal2", retries=2, port=0, gather=1, decode_property="C06", entry="unreal2",
     describe=("info + 0-40 key/value pairs (repeated keys, Mutator in any case, GamePassword) + 0-64 players (ping 0 = bot) "
               "over 1-6 datagrams per list incl. an empty last one, strings of 0-127 units in Latin-1 and UCS-2 (stray 0x01, "
